@@ -12,14 +12,25 @@ def spec(tier):
                        pipes=[pipe(s1, prio=3, at=0, durs=["da", 1, 2, 1], mems=["ma", "mb", "ma", 1]),
                               pipe(s2, prio=1, at="ta", durs=[2, 1], mems=["mb", 1]),
                               pipe(s3, prio=2, at="tb", durs=[1, 1, 1, 1], mems=[1, "ma", 1, 1])])
-            obs.append(CH(name=f"overbook_P{pools}_s{si}", harness="sched.overbook",
-                          sym=dict(cpus=I(1, 6), ram=I(1, 30), ma=I(0, 32), mb=I(0, 32), ta=I(0, 3), tb=I(0, 3), da=I(1, 2)),
-                          fixed=dict(cfg=cfg), timeout=1200))
+            if th:
+                obs.append(CH(name=f"overbook_P{pools}_s{si}", harness="sched.overbook",
+                              sym=dict(cpus=I(1, 6), ram=I(1, 30), ma=I(0, 32), mb=I(0, 32), ta=I(0, 3), tb=I(0, 3), da=I(1, 2)),
+                              fixed=dict(cfg=cfg), timeout=2400))
+            else:
+                for (lo, hi) in ((1, 3), (4, 6)):
+                    obs.append(CH(name=f"overbook_P{pools}_s{si}_cpu{lo}", harness="sched.overbook",
+                                  sym=dict(cpus=I(lo, hi), ram=I(1, 30), ma=I(0, 32), mb=I(0, 32), ta=I(0, 3)),
+                                  fixed=dict(cfg=cfg, tb=1, da=1), timeout=1200))
     # abandonment after three failures: an operator that can never fit
     cfg = dict(algo="overbook", pools=1, multi=False, oc=True, K=K,
                pipes=[pipe("chain2", prio=3, at=0, durs=[1, 1], mems=["ma", 1]), pipe("single", prio=2, at="ta", durs=["da"], mems=["mb"])])
     obs.append(CH(name="overbook_abandon", harness="sched.overbook",
                   sym=dict(cpus=I(1, 4), ram=I(1, 10), ma=I(0, 12), mb=I(0, 12), ta=I(0, 4), da=I(1, 3)), fixed=dict(cfg=cfg), timeout=900))
+    # abandonment while sibling operators are queued and CPUs are scarce (2 pools)
+    cfg2 = dict(algo="overbook", pools=2, multi=False, oc=True, K=K,
+                pipes=[pipe("single", prio=3, at=0, durs=[1], mems=["mb"]), pipe("fork4", prio=2, at="ta", durs=["da", 2, 2, 2], mems=[1, "ma", 1, 1])])
+    obs.append(CH(name="overbook_abandon_fork", harness="sched.overbook",
+                  sym=dict(cpus=I(1, 3), ram=I(2, 8), ma=I(0, 9), mb=I(0, 9), ta=I(0, 3), da=I(1, 3)), fixed=dict(cfg=cfg2), timeout=1200))
     tsym = dict(cpus=I(1, 4), ram=I(1, 10), ma=I(0, 12), mb=I(0, 12), ta=I(0, 4))
     for w in ("fail", "ok", "abandoned"):
         obs.append(twin(f"overbook_{w}", "sched.overbook", tsym, dict(cfg=cfg, da=1), w))
